@@ -30,7 +30,9 @@ const short = (x) => { const s = JSON.stringify(x); return s === undefined ? Str
 // gets its own instance of all runtype objects: a memo kept on them by a change cannot leak from one path into another, only along the steps of one history
 const GLUE = job.glue;
 const factory = new Function(...GLUE, 'class RefRuntype extends BaseRefRuntype { getNamedRuntypes() { return namedRuntypes; } }\n' + job.code +
-  '\nconst parsers = {};\nfor (const k of Object.keys(buildParsersInput)) parsers[k] = buildParserFromRuntype(buildParsersInput[k], k, false);\nreturn { parsers, namedRuntypes };');
+  '\nconst parsers = {};\nfor (const k of Object.keys(buildParsersInput)) parsers[k] = buildParserFromRuntype(buildParsersInput[k], k, false);\n' +
+  // two parsers may carry the same display name (two generated modules that both export `Reply`, or ad-hoc b.Object(...) parsers)
+  'for (const d of ' + JSON.stringify(job.sameName || []) + ') parsers[d.key] = buildParserFromRuntype(buildParsersInput[d.of], d.name, false);\nreturn { parsers, namedRuntypes };');
 const instantiate = () => factory(...GLUE.map((g) => rt[g]));
 const ref = instantiate();
 let mod = null;
@@ -67,19 +69,22 @@ function makeCtx(ci, ti, pre /* undefined = symbolic, else array of names */) {
   }
   const written = new Map(), deleted = new Set(), log = [];
   const preHas = (k) => (pre === undefined ? (k in sym ? $S.forkOn(sym[k]) : false) : pre.includes(k));
-  const has = (k) => { if (typeof k !== 'string') return false; if (written.has(k)) return true; if (deleted.has(k)) return false; return preHas(k); };
-  const get = (k) => { if (!has(k)) return undefined; if (!written.has(k)) written.set(k, clone(fr.F[k])); return written.get(k); };
+  // own(k): k is an own key of the record (what a JSON export contains); has(k): the `in` operator, which also sees Object.prototype
+  // (the real record is a plain object literal, so `"toString" in collectedDefinitions` is true from the start)
+  const own = (k) => { if (typeof k !== 'string') return false; if (written.has(k)) return true; if (deleted.has(k)) return false; return preHas(k); };
+  const has = (k) => own(k) || (typeof k === 'string' && k in Object.prototype);
+  const get = (k) => { if (!own(k)) return typeof k === 'string' ? Object.prototype[k] : undefined; if (!written.has(k)) written.set(k, clone(fr.F[k])); return written.get(k); };
   const proxy = new Proxy({}, {
     has: (_t, k) => has(k),
     get: (_t, k) => (typeof k === 'string' ? get(k) : undefined),
     set: (_t, k, v) => { log.push(k); written.set(k, v); deleted.delete(k); return true; },
     deleteProperty: (_t, k) => { written.delete(k); deleted.add(k); return true; },
-    ownKeys: () => { const ks = fr.U.filter((n) => has(n)); for (const k of written.keys()) if (!ks.includes(k)) ks.push(k); return ks; },
-    getOwnPropertyDescriptor: (_t, k) => (has(k) ? { value: get(k), writable: true, enumerable: true, configurable: true } : undefined),
+    ownKeys: () => { const ks = fr.U.filter((n) => own(n)); for (const k of written.keys()) if (!ks.includes(k)) ks.push(k); return ks; },
+    getOwnPropertyDescriptor: (_t, k) => (own(k) ? { value: get(k), writable: true, enumerable: true, configurable: true } : undefined),
     defineProperty: (_t, k, d) => { log.push(k); written.set(k, d.value); deleted.delete(k); return true; },
   });
   c.collectedDefinitions = proxy;
-  return { c, proxy, has, get, log, ti, fr, written, deleted, preHas };
+  return { c, proxy, has: own, get, log, ti, fr, written, deleted, preHas };
 }
 
 function body(seq) {
